@@ -10,7 +10,8 @@ open Netpoll.Poll.OpCache
 /-- **C10_no_cross_dispatch / C10_single_owner.** For every sequence of actions (any number of owners,
 any placement of close / reopen between the fetch and the dispatch of a batch, any stale Release calls
 once guarded): no event is ever dispatched to callbacks of an owner it was not fetched for, no stale call
-takes a later owner's token, and the slot is never handed out while a fetched event for it is undispatched. -/
+takes a later owner's token, and the slot is never handed out while a fetched event for it is undispatched.
+`bad` also records a hang-up delivered to another owner's `onHup` (`Act.queueHup` / `Act.runHup`, see `C10_queued_hup_isolated`). -/
 theorem C10_isolation (acts : List Act) (s : S) (hall : acts.all guardedAct = true) (hr : run init acts = some s) :
     s.bad = false ∧ s.staleHolds = false ∧ (s.pending ≠ none → s.loc ≠ .first) := by
   have hg := good_run acts init s good_init hall hr
@@ -48,6 +49,38 @@ example : run init [.alloc, .register, .fetch, .doEv, .detach, .closeFd 1] = non
 example : (run init [.alloc, .register, .fetch, .detach, .unused, .reset, .freeable, .doEv, .endBatch,
     .alloc, .register, .staleRelease 1 true, .fetch, .doEv, .doneEv, .endBatch]).map (fun s => (s.gen, s.bad)) = some (2, false) := by
   decide
+
+/-- **C10_queued_hup_isolated** (hang-ups recorded in a batch are delivered later, on another goroutine).  `appendHup` records the
+hang-up while the poller holds the slot's token; the goroutine started by `onhups()` delivers it at ANY later point of ANY
+continuation – after the batch ended, after the owner closed the connection, after `opcache.free()` spliced the slot back and a new
+connection took it.  For every such history: every undelivered entry names an owner the slot really had, delivering it
+(`runHup g false`: the entry is the func `appendHup` copied) is always possible and invokes no other owner's callback – in
+particular not the callbacks of the connection that owns the slot by then. -/
+theorem C10_queued_hup_isolated (acts : List Act) (s : S) (hall : acts.all guardedAct = true) (hr : run init acts = some s) :
+    (∀ g ∈ s.hupq, g ≤ s.gen ∧ ∃ s', step s (.runHup g false) = some s' ∧ s'.bad = false ∧ s'.cbGen = s.cbGen ∧ s'.st = s.st) := by
+  intro g hg
+  have hq := qok_run acts init s qok_init hr
+  have hb := (good_run acts init s good_init hall hr).1
+  refine ⟨hq g hg, ?_⟩
+  have hc : s.hupq.contains g = true := by simpa using hg
+  refine ⟨{ s with hupq := s.hupq.erase g, bad := s.bad || (false && s.cbGen.isSome && s.cbGen != some g) }, ?_, ?_, rfl, rfl⟩
+  · simp only [step, hc, if_true]
+  · simp [hb]
+
+/-- non-vacuity: hang-up recorded for owner 1, owner 1 closes, the batch ends, owner 2 takes the slot, THEN the goroutine delivers
+the entry: owner 2 is not touched -/
+example : (run init [.alloc, .register, .fetch, .doEv, .queueHup, .detach, .doneEv, .unused, .reset, .freeable, .closeFd 1, .endBatch,
+    .alloc, .register, .runHup 1 false]).map (fun s => (s.gen, s.cbGen, s.hupq, s.bad)) = some (2, some 2, [], false) := by decide
+
+/-- **Witness: a hang-up queue that holds slots instead of the copied funcs is wrong.**  If the goroutine read `OnHup` from the
+slot when it reaches the entry (`late = true`), the same history delivers owner 1's hang-up to owner 2's `onHup`: connection 2 is
+closed "by peer" although its peer is alive.  (When the slot has only been reset, not yet reused, the late read finds nil and
+skips the entry – which is why nothing notices until the slot is reused.) -/
+theorem C10_late_onhup_read_witness :
+    (run init [.alloc, .register, .fetch, .doEv, .queueHup, .detach, .doneEv, .unused, .reset, .freeable, .closeFd 1, .endBatch,
+      .alloc, .register, .runHup 1 true]).map (fun s => (s.gen, s.bad)) = some (2, true) ∧
+    (run init [.alloc, .register, .fetch, .doEv, .queueHup, .detach, .doneEv, .unused, .reset, .freeable, .closeFd 1, .endBatch,
+      .runHup 1 true]).map (fun s => (s.gen, s.bad)) = some (1, false) := by decide
 
 /-- **Witness of the defect fixed by 1c26766 (D11).** Without the IsActive guard a Release on the closed
 first owner takes the token of the slot's second owner (after which the real code panics in calcMaxSize and
